@@ -147,22 +147,39 @@ static void image_restore(ImageRegion *im)
 }
 
 // ---------------------------------------------------------------- allocation tracking (strdup / calloc / free inside the programs)
-struct AllocHdr { AllocHdr *prev, *next; Instance *owner; uint64_t magic; };
+struct AllocHdr { AllocHdr *prev, *next; Instance *owner; uint64_t magic; size_t size; size_t pad; };
 static const uint64_t ALLOC_MAGIC = 0x51ab51ab51ab51abULL;
 static AllocHdr *orphan_head = nullptr;  // allocations made outside any instance (unit shape)
 
+// Large blocks (the server's users[] table is ~6.5 MB) are recycled instead of being returned to the
+// sanitizer allocator: mmap/munmap + shadow poisoning of such blocks would dominate the cost of a case.
+static const size_t BIG = 1u << 20;
+static std::vector<std::pair<size_t, AllocHdr *>> big_pool;
+
 static void *tracked_alloc(size_t n, bool zero)
 {
-	AllocHdr *h = (AllocHdr *)malloc(sizeof(AllocHdr) + n);
+	AllocHdr *h = nullptr;
+	if (n >= BIG) {
+		for (size_t k = 0; k < big_pool.size(); k++)
+			if (big_pool[k].first == n) { h = big_pool[k].second; big_pool.erase(big_pool.begin() + k); break; }
+	}
+	if (!h) h = (AllocHdr *)malloc(sizeof(AllocHdr) + n);
 	if (!h) abort();
 	if (zero) memset(h + 1, 0, n);
 	h->magic = ALLOC_MAGIC;
+	h->size = n;
 	h->owner = W.current;
 	AllocHdr **head = W.current ? (AllocHdr **)&W.current->alloc_head : &orphan_head;
 	h->prev = nullptr; h->next = *head;
 	if (*head) (*head)->prev = h;
 	*head = h;
 	return h + 1;
+}
+static void release_block(AllocHdr *h)
+{
+	h->magic = 0;
+	if (h->size >= BIG && big_pool.size() < 8) big_pool.push_back(std::make_pair(h->size, h));
+	else free(h);
 }
 static void tracked_free(void *p)
 {
@@ -172,13 +189,12 @@ static void tracked_free(void *p)
 	AllocHdr **head = h->owner ? (AllocHdr **)&h->owner->alloc_head : &orphan_head;
 	if (h->prev) h->prev->next = h->next; else *head = h->next;
 	if (h->next) h->next->prev = h->prev;
-	h->magic = 0;
-	free(h);
+	release_block(h);
 }
 static void free_all(Instance *i)
 {
 	AllocHdr *h = (AllocHdr *)i->alloc_head;
-	while (h) { AllocHdr *n = h->next; h->magic = 0; free(h); h = n; }
+	while (h) { AllocHdr *n = h->next; release_block(h); h = n; }
 	i->alloc_head = nullptr;
 }
 
